@@ -9,7 +9,10 @@ import (
 	"sort"
 	"strings"
 
+	"google.golang.org/protobuf/proto"
+
 	"github.com/yorkie-team/yorkie/api/converter"
+	api "github.com/yorkie-team/yorkie/api/yorkie/v1"
 	"github.com/yorkie-team/yorkie/internal/zzvsym"
 	"github.com/yorkie-team/yorkie/pkg/document/change"
 	"github.com/yorkie-team/yorkie/pkg/document/time"
@@ -47,6 +50,17 @@ func vWire(cs []*change.Change) []*change.Change {
 	if err != nil {
 		zzvsym.Assert(false, "wire-encode-no-error")
 		return nil
+	}
+	// the bytes cross the network: nothing of the sender's memory is shared
+	// (ToChanges puts maps such as presence data into the message as they are)
+	for i, pb := range pbs {
+		bytes, err := proto.Marshal(pb)
+		fresh := &api.Change{}
+		if err != nil || proto.Unmarshal(bytes, fresh) != nil {
+			zzvsym.Assert(false, "wire-serialise-no-error")
+			return nil
+		}
+		pbs[i] = fresh
 	}
 	out, err := converter.FromChanges(pbs)
 	if err != nil {
